@@ -133,6 +133,38 @@ def excess(prop: str, cases, nseeds=160, fuel=300, timeout=900):
     return res
 
 
+COVER_HEADER = """From Coq Require Import ZArith NArith List Bool String.
+From RZ.model Require Import Ast.
+From RZ.proofs Require Import FragCheck.
+Import ListNotations.
+Local Open Scope string_scope.
+"""
+
+
+def covered(prop: str, cases, timeout=900):
+    """cases: (id, hstart, ast_coq).  {id: bool}: FragCheck.covered h ast, i.e. the behaviour lies in the statement fragment and the
+    real configuration translates it like the repaired one, so that FragCheck.covered_correct gives the simulation theorem for it"""
+    if not cases:
+        return {}
+    files, where = {}, {}
+    shard = max(1, -(-len(cases) // common.NPROC))
+    for k in range(0, len(cases), shard):
+        chunk = cases[k:k + shard]
+        rows = ";\n".join(f"({h}%N, {a})" for _, h, a in chunk)
+        name = f"cov_{k // shard:04d}"
+        where[name] = [c[0] for c in chunk]
+        files[name] = COVER_HEADER + f"Definition cases : list (N * cstmts) := [\n{rows}\n].\nEval vm_compute in (map (fun c => covered (fst c) (snd c)) cases).\n"
+    ok, outs, err = common.run_case_files(prop + "_cov", files, timeout=timeout)
+    if not ok:
+        raise RuntimeError("covered case files failed: " + err[-2000:])
+    res = {}
+    for name in sorted(outs):
+        vals = re.findall(r"true|false", common.coq_printed_values(outs[name])[-1])
+        for cid, v in zip(where[name], vals):
+            res[cid] = v == "true"
+    return res
+
+
 def parse_option_list(v: str):
     """parse `[Some (3%N, 24%nat, None); None; Some (0%N, 12%nat, Some (5, 3%N))]`"""
     v = v.replace("%N", "").replace("%nat", "").replace("%Z", "")
